@@ -66,3 +66,9 @@ Print Assumptions c04_every_near_tuple_in_some_row_partial.
 Definition widths_pos (blocks : list block) : bool := forallb (fun b => 0 <? group_width b) blocks.
 Theorem c04_group_widths_positive : widths_pos blocks_O2 = true /\ widths_pos blocks_O3 = true /\ widths_pos blocks_O4 = true.
 Proof. repeat split; vm_compute; reflexivity. Qed.
+
+(** Hand-modelled code this property's model and correspondences were written against is unchanged (the combination tables and index helpers; the first-order classes):
+    whole-function match against the recorded source, regenerated on every run. *)
+From SymfcG Require Import ShapesCombos ShapesO1.
+Theorem c04_recorded_sources_in_force : ShapesCombos_as_recorded = true /\ ShapesO1_as_recorded = true.
+Proof. repeat split; reflexivity. Qed.
